@@ -94,6 +94,32 @@ check('C19', 'other',
       'Trusted: the scope-precedence model in the harness; hand-built FlatSpec stands for the generated spec.',
       'DESIGN.md section 4, C19')
 
+check('C15', 'model_checking',
+      'bounded model checking of the real asyncio connection pool by symbolic execution of schedules (CrossHair + z3) on a deterministic event loop',
+      'From pre-states built through the public API every schedule of 3 (quick) / 4 (thorough) symbolic actions - acquire on any of '
+      '<= 3 databases, release, release-as-broken, completion or failure of a connect / disconnect, timer firing, clock increment from '
+      'a finite set - is executed on the real Pool coroutines; after every action: open + opening <= max, a lent connection is open, '
+      'for the right database and lent once, reported usage = open + opening + closing, no unexpected exception in a pool task.',
+      'Trusted: ghost connection bookkeeping in the harness; the 40-line deterministic loop stands for asyncio (real Future/Task); '
+      'monitors at quiescence.', 'DESIGN.md section 4, C15/C16')
+
+check('C16', 'model_checking',
+      'bounded deadlock-freedom of the real connection pool: symbolic schedules (CrossHair + z3) followed by a fixed fair continuation',
+      'Same exploration as C15; after the symbolic schedule a fair continuation (complete everything in flight, release everything held, '
+      'fire every timer, let time pass, until 8 rounds bring no progress) must leave no acquire() pending; with connects failing until '
+      'retries are exhausted (or 3D000) every waiting request must get the error. Liveness is claimed only in this bounded '
+      'no-reachable-stuck-state form. Known finding F8 (requests that depend on a release() which never comes) is listed.',
+      'Trusted: as C15; the fair continuation is one particular fair schedule (a state stuck under every continuation is stuck under it).',
+      'DESIGN.md section 4, C15/C16')
+
+check('C20', 'other',
+      'bounded symbolic execution of the real topological sort (CrossHair + z3) over a symbolic labelling of all ordered pairs of 2-3 keys',
+      'For every graph inside the bound (all labellings of all ordered pairs, including self-loops and a reference to a missing item) '
+      'the real sort_ex/sort/normalize satisfy: permutation, hard edges respected, CycleError iff the hard edges are cyclic, soft edges '
+      'honoured when hard+soft is acyclic, unresolved references raise iff not allowed, deterministic. Finite-domain input: the '
+      'per-path engine performs an exhaustive case split; N >= 4 is outside (the merged bit-vector encoding of DESIGN.md was not built).',
+      'Trusted: the 8-line reachability oracle. Iteration order of keys: ascending only.', 'DESIGN.md section 4, C20')
+
 UNDER_CONSTRUCTION = {}
 
 
